@@ -129,6 +129,15 @@ WHard(n) ==        \* n bytes accepted, then a hard error: Send reports it (the 
   /\ SendDone("err") /\ sk' = sk + 1 /\ wf' = wf + 1
   /\ UNCHANGED <<cfg, phase, cut, rd, seen, N, used, rf, eofSeen, nextk, small>>
 
+WCtx(n) ==         \* n bytes accepted, a temporary timeout, and the context of the Send has ended meanwhile:
+                   \* the write loop gives up with the context's error (and the encoder keeps it, like any other)
+  /\ phase = "send" /\ sk <= NE /\ wf < MaxWF /\ ~Poisoned
+  /\ n < BLen(sk) - sOff
+  /\ wire' = Push(wire, <<sk, sOff, sOff + n>>)
+  /\ plan' = WPlan("ctx", n)
+  /\ SendDone("err") /\ sk' = sk + 1 /\ wf' = wf + 1
+  /\ UNCHANGED <<cfg, phase, cut, rd, seen, N, used, rf, eofSeen, nextk, small>>
+
 (* the sender is done: fix where the stream ends for the receiver *)
 StartRecv(c) ==
   /\ phase = "send" /\ sk > NE
@@ -231,7 +240,7 @@ Init == /\ cfg \in Cfgs
 
 ShortSizes == IF sk <= NE THEN {n \in 0 .. BLen(sk) : n % U = 0 \/ n = VLen(sk)} ELSE {}
 Next == \/ WFull \/ WPoisoned
-        \/ \E n \in ShortSizes : WShort(n) \/ WHard(n)
+        \/ \E n \in ShortSizes : WShort(n) \/ WHard(n) \/ WCtx(n)
         \/ (phase = "send" /\ sk > NE /\ \E c \in Marks \cup {Total(wire)} : StartRecv(c))
         \/ RReturn
         \/ (Needs /\ \E b \in NextMarks(rd, cut) : RChunk(b) \/ RChunkTimeout(b))
@@ -241,7 +250,7 @@ Spec == Init /\ [][Next]_vars
 Terminal == phase = "done"
 
 (* the environment's faults, as the property's fault-free clause sees them *)
-HardFault == \/ \E i \in 1 .. Len(plan.w) : plan.w[i].r = "hard"
+HardFault == \/ \E i \in 1 .. Len(plan.w) : plan.w[i].r \in {"hard", "ctx"}
              \/ \E i \in 1 .. Len(plan.r) : plan.r[i].r = "ctxend"
              \/ plan.cut < Total(wire)
 PCfg == [lens |-> cfg.lens, U |-> U, L |-> cfg.L, faultfree |-> IF HardFault THEN "n" ELSE "y"]
